@@ -1,4 +1,45 @@
-import Stbem.Model.SingleLayer
-namespace Stbem.SL
-theorem placeholder_C04 : True := trivial
-end Stbem.SL
+import Stbem.Props.SL
+import Stbem.Props.Formulas
+import Stbem.Props.C15
+
+/-!
+# C04 — Causality: Volterra structure and sign
+
+acausal ⇒ the literal 0 on every path (guard of bilform, and independently the generated kernels sl_dtk / fint_k / stik_k / sl_tik / steval_k vanish for every choice of special functions), matrix = table of single calls with rows = test, hence block lower triangular; the four-term kernel is built from a primitive F with F' = g, g' = -G (so that, G ≥ 0, the exact entry is a non-negative double integral). Positivity in binary64 is search-only.
+
+The theorems are proved in `Stbem.Props.SL` (model `Stbem.Model.SingleLayer`, tied to `src/single_layer.py` by exact
+execution of the real code), `Stbem.Props.Formulas` (terms regenerated from the Python source on every run) and
+`Stbem.Props.C15`; this file lists, as aliases, the ones that carry property C04.
+-/
+namespace Stbem.C04
+
+alias bilform_acausal := Stbem.SL.bilform_acausal
+alias bilform_kernel_acausal := Stbem.SL.bilform_kernel_acausal
+alias fint_acausal := Stbem.SL.fint_acausal
+alias stik_acausal_zero := Stbem.SL.stik_acausal_zero
+alias bilformMatrix_table := Stbem.SL.bilformMatrix_table
+alias bilformMatrix_lower := Stbem.SL.bilformMatrix_lower
+alias evalPlan_zero := Stbem.SL.evalPlan_zero
+alias eval_acausal := Stbem.SL.eval_acausal
+alias dtk_structure := Stbem.Formulas.R.dtk_structure
+alias dtk_four_term := Stbem.Formulas.R.dtk_four_term
+alias dtk_acausal_zero := Stbem.Formulas.R.dtk_acausal_zero
+alias g_zero := Stbem.Formulas.R.g_zero
+alias f_zero := Stbem.Formulas.R.f_zero
+alias tik_zero := Stbem.Formulas.R.tik_zero
+alias fint_1_zero := Stbem.Formulas.R.fint_1_zero
+alias fint_2_zero := Stbem.Formulas.R.fint_2_zero
+alias fint_3_zero := Stbem.Formulas.R.fint_3_zero
+alias fint_4_zero := Stbem.Formulas.R.fint_4_zero
+alias stik_1_acausal_zero := Stbem.Formulas.R.stik_1_acausal_zero
+alias stik_2_acausal_zero := Stbem.Formulas.R.stik_2_acausal_zero
+alias stik_3_acausal_zero := Stbem.Formulas.R.stik_3_acausal_zero
+alias stik_4_acausal_zero := Stbem.Formulas.R.stik_4_acausal_zero
+alias steval_1_zero := Stbem.Formulas.R.steval_1_zero
+alias steval_2_zero := Stbem.Formulas.R.steval_2_zero
+alias Fp_deriv := Stbem.Formulas.R.Fp_deriv
+alias ei_deriv := Stbem.Formulas.R.ei_deriv
+alias g_deriv := Stbem.Formulas.R.g_deriv
+alias f_deriv := Stbem.Formulas.R.f_deriv
+
+end Stbem.C04
